@@ -286,6 +286,8 @@ class Ctx:
                 budget = self.prove_timeout_ms
                 attempts = [(budget, 0)] if budget < 20000 else [(budget // 4, 0), (budget // 4, 1), (budget // 4, 2)]
                 attempts.append((budget, 3))
+                if getattr(self, "single_attempt", False):
+                    attempts = [(budget, 0)]
                 res = z3.unknown
                 for attempt_ms, seed in attempts:
                     self.solver.set("random_seed", seed)
